@@ -564,6 +564,7 @@ def _task_parsed(task):
             with case_alarm(300):
                 doc = c01.compose((ki,), 1)
                 defn = load_doc(doc)
+                held = []
                 for pn in task["patterns"]:
                     pkt, o = c01.fit(doc, 1, pats[pn])
                     if o.kind != "parsed":
@@ -574,6 +575,7 @@ def _task_parsed(task):
                     if len(out) != 1:
                         continue
                     ref_items = {it.name: it for it in o.items}
+                    held.append((pn, out[0], ref_items))
                     for name, p in out[0].items():
                         # "additionally carries the raw encoded value": the raw value is the one the bits of THIS packet encode (sign of zero,
                         # int vs float and all), not merely something equal to it
@@ -607,6 +609,19 @@ def _task_parsed(task):
                         seen.add(key)
                         t.nontrivial += 1
                         exercise(t, p, v, kind, case, opsets[kind], fams[kind], p.raw_value)
+                # the values of EARLIER packets once every later packet has been decoded by the same definition: a value carries the raw value of
+                # its own packet for as long as the caller holds it
+                from mc.observe import same_value
+                for pn, packet, ref_items in held:
+                    for name, p in packet.items():
+                        it = ref_items.get(name)
+                        if it is None or it.unjudged or not hasattr(p, "raw_value"):
+                            continue
+                        t.evals += 1
+                        if not same_value(it.raw, plain(p.raw_value)):
+                            t.violation({"kind": "raw-value", "class": type(p).__name__, "parsed": True, "what": "changed once later packets were decoded"},
+                                        {"parsed": True, "held": True, "field_kind": c01.pal()[ki].name, "pattern": pn, "name": name},
+                                        expected=repr(it.raw), observed=repr(plain(p.raw_value)))
                 t.programs += 1
         except BaseException as e:  # noqa: BLE001
             t.violation({"kind": "part-aborted", "part": "parsed-values", "exc": type(e).__name__}, {"field_kind": ki}, observed=repr(e)[:300])
@@ -742,7 +757,7 @@ def run(ctx):
     t.sample({"packet": "parsed A packet with cursor at end", "copies": ["copy", "deepcopy", "pickle0..5"]})
     coverage = {
         "exhaustive": True,
-        "bound": (f"values decoded by the library from packets of every field kind of the palette ({nk} kinds x {len(pnames)} payload patterns; each distinct "
+        "bound": (f"the raw value of every value of every EARLIER packet read again once all later packets were decoded by the same definition; values decoded by the library from packets of every field kind of the palette ({nk} kinds x {len(pnames)} payload patterns; each distinct "
                   "(class, value, raw value) once) and values built by hand: "
                   f"{len(value_sets(ctx.tier)[0])} ints, {len(value_sets(ctx.tier)[1])} floats (signed zeros, infinities, NaN, min subnormal, max), "
                   f"{len(value_sets(ctx.tier)[2])} strs, {len(value_sets(ctx.tier)[3])} bytes, 2 bools "
@@ -763,7 +778,8 @@ def replay(case):
     if case.get("parsed"):
         from mc.checks import c01
         ki = [i for i, k in enumerate(c01.pal()) if k.name == case["field_kind"]]
-        t = _task_parsed({"kinds": ki, "patterns": [case["pattern"]]})
+        pats = [case["pattern"]] if not case.get("held") else list(c01.base_patterns()) + ["neg0", "neg0le"]
+        t = _task_parsed({"kinds": ki, "patterns": pats})
     else:
         check_values(t, "thorough")
         for part in (check_interference, check_packets, check_pairs, check_containers):
